@@ -186,11 +186,19 @@ template <class T> static void helpers (uint64_t seed, int count)
         T a = g.pick (mode), b = g.pick (mode), c = g.pick (mode);
         if (k % 7 == 0) b = a;
         if (k % 11 == 0) c = 0;
+        T tolb = 0; bool band = false;
+        if (k % 13 == 5)
+        {   // the band between  e |x1|  and  e |x2|  (the relative test is about the FIRST argument): dyadic, so every product is exact
+            a = (T) ((1 + k % 7) * ((k / 13) % 2 ? -8.0 : 8.0));
+            band = true; tolb = (T) std::ldexp (1.0, -(int) (1 + (k / 26) % 4));
+            b = a + tolb * a + tolb * tolb * a / 2;
+            if ((k / 104) % 2) { T sw = a; a = b; b = sw; }       // ... and the same pair the other way round (outside: e |x1| is now the larger bound)
+        }
         { Rec r ("fn"); r.str ("fn", "lerp"); r.str ("t", t); r.raw ("a", jlist (std::vector<T>{a, b, c}.data (), 3)); r.raw ("out", jv (lerp (a, b, c))); r.emit (); }
         { Rec r ("fn"); r.str ("fn", "ulerp"); r.str ("t", t); r.raw ("a", jlist (std::vector<T>{a, b, c}.data (), 3)); r.raw ("out", jv (ulerp (a, b, c))); r.emit (); }
         { Rec r ("fn"); r.str ("fn", "lerpfactor"); r.str ("t", t); r.raw ("a", jlist (std::vector<T>{a, b, c}.data (), 3)); r.raw ("out", jv (lerpfactor (a, b, c))); r.emit (); }
         { Rec r ("fn"); r.str ("fn", "clamp"); r.str ("t", t); r.raw ("a", jlist (std::vector<T>{a, std::min (b, c), std::max (b, c)}.data (), 3)); r.raw ("out", jv (clamp (a, std::min (b, c), std::max (b, c)))); r.emit (); }
-        T tol = (T) std::fabs ((double) c);
+        T tol = band ? tolb : (T) std::fabs ((double) c);
         { Rec r ("fn"); r.str ("fn", "cmp"); r.str ("t", t); r.raw ("a", jlist (std::vector<T>{a, b}.data (), 2)); r.raw ("out", jv ((T) cmp (a, b))); r.emit (); }
         { Rec r ("fn"); r.str ("fn", "cmpt"); r.str ("t", t); r.raw ("a", jlist (std::vector<T>{a, b, tol}.data (), 3)); r.raw ("out", jv ((T) cmpt (a, b, tol))); r.emit (); }
         { Rec r ("fn"); r.str ("fn", "iszero"); r.str ("t", t); r.raw ("a", jlist (std::vector<T>{a, tol}.data (), 2)); r.raw ("out", jv ((T) iszero (a, tol))); r.emit (); }
